@@ -1,6 +1,7 @@
 import RR.Proof.SyncWork
 import RR.Proof.Hand
 import RR.Proof.DspFir
+import RR.Proof.Gated
 
 /-!
 # C09 — block verdicts are truthful
@@ -168,5 +169,29 @@ theorem c09_fir {α : Type} (o : Dsp.Ops α) (cd : Dsp.Codec α) (rt : List α) 
       · simp [Dsp.filterN]
       · simp only [Dsp.filterN, List.length_map, List.length_range, hmin, Nat.mul_div_cancel _ hd]
         exact Nat.min_le_right _ _
+
+/-- **ZeroCrossing / SymbolSync (gated family), one call on any windows.** Unless the step panics:
+consumption within the read window, the same number of samples committed on every output and within each
+output's room; a wait names a stream that really is empty (input) or full (that very output) and nothing
+was moved; `Again` only with at least one consumed sample. -/
+theorem c09_gated (G : Gated) (hn : G.nout = 1 ∨ G.nout = 2) (st : G.σ) (w : List Nat) (f0 f1 : Nat) :
+    let r := gatedWork G st ⟨[⟨w, [], true⟩], [⟨f0, true⟩, ⟨f1, true⟩]⟩
+    let n := r.2.consumed.getD 0 0
+    let p0 := (r.2.produced.getD 0 ⟨[], []⟩).samples
+    let p1 := (r.2.produced.getD 1 ⟨[], []⟩).samples
+    r.2.verdict = .panic ∨
+    (n ≤ w.length ∧ p0.length ≤ f0 ∧ (G.nout = 2 → p1.length = p0.length ∧ p1.length ≤ f1) ∧ (G.nout = 1 → p1 = []) ∧
+     (r.2.verdict = .waitIn 0 1 ∧ w = [] ∧ n = 0 ∨
+      r.2.verdict = .waitOut 0 1 ∧ f0 = 0 ∧ n = 0 ∧ p0 = [] ∨
+      r.2.verdict = .waitOut 1 1 ∧ G.nout = 2 ∧ f1 = 0 ∧ n = 0 ∧ p0 = [] ∨
+      r.2.verdict = .again ∧ 0 < n)) := by
+  intro r n p0 p1
+  rcases gatedWork_spec G hn st w f0 f1 with h | ⟨h1, h2, h3, h4, _, _, _, h5⟩
+  · exact Or.inl h
+  · exact Or.inr ⟨h1, h2, h3, h4, h5⟩
+
+example : (gatedWork (zcGated f32ZOps 4.0 2) (zcGated f32ZOps 4.0 2).init
+    ⟨[⟨[1, 2], [], true⟩], [⟨3, true⟩, ⟨0, true⟩]⟩).2.verdict = .waitOut 1 1 := by
+  simp [gatedWork, zcGated, in0, out0, noOut]
 
 end RR.Props.C09
